@@ -367,7 +367,7 @@ func (s *Service) RegisterInterface(iface dispatcher) error {
 		return fmt.Errorf("interface '%s' already registered", name)
 	}
 
-	if s.running {
+	if s.running || s.conncounter != 0 {
 		return fmt.Errorf("service is already running")
 	}
 	s.interfaces[name] = iface
